@@ -155,7 +155,7 @@ func init() {
 	})
 
 	engine.RegisterCheck("C07", func(r *engine.Run) {
-		r.Rule = "SEQ: every sequence up to the stated depth over {create, delete, rename, re-create, batch (ids and references shared with the survivor dataset S), garbage collection, restart, a write through a Dataset object obtained before its dataset was deleted, a paged relationship query started before and continued after a delete} on names A,B next to a preloaded survivor; after every history the dataset list, latest views, feeds, unscoped and point-in-time lookups, relationship queries are compared with a reference model that only knows live dataset incarnations; raw key scans check that GC removes exactly the deleted datasets' keys and that dataset ids are never reused. CRASH: real SIGKILL at every durable commit and every named point inside create/rename/delete/GC; the recovered store must be observably 'not done' or 'done'"
+		r.Rule = "SEQ: every sequence up to the stated depth over {create (plain / as a proxy dataset), delete, rename, re-create, batch (ids and references shared with the survivor dataset S), garbage collection, restart, a write through a Dataset object obtained before its dataset was deleted, a paged relationship query started before and continued after a delete} on names A,B next to a preloaded survivor; after every history the dataset list, latest views, feeds, unscoped and point-in-time lookups, relationship queries are compared with a reference model that only knows live dataset incarnations; raw key scans check that GC removes exactly the deleted datasets' keys and that dataset ids are never reused. CRASH: real SIGKILL at every durable commit and every named point inside create/rename/delete/GC; the recovered store must be observably 'not done' or 'done'"
 		r.Assumptions = []string{"badger transactions are linearizable and commits atomic w.r.t. process kill", "the meta-entities in core.Dataset are outside this property (C19)"}
 		pool := model.Pool(0)
 		pi := func(n string) int { return model.PoolIndex(pool, n) }
@@ -178,6 +178,22 @@ func init() {
 			depth, budget = 8, 2400
 		}
 		engine.RunSeq(r, engine.SeqSpec{Name: "c07-seq", WorkerArgs: []string{"worker", "dsm"}, Alphabet: vOpsJSON(alpha), Params: params, Depth: depth, Budget: secs(budget)})
+		// proxy and virtual datasets: the store-level write paths (transactions, job sinks) still write into them locally,
+		// so deleting one has to hide and collect that data like any other
+		{
+			pa := []VOp{
+				{K: "create", DS: "A", N: 2}, {K: "create", DS: "A", N: 3}, {K: "delete", DS: "A"},
+				{K: "batch", DS: "A", Ents: []VEnt{{"e1", pi("v2r2")}}},
+				{K: "batch", DS: "A", Ents: []VEnt{{"e2", pi("r1")}, {"e3", pi("v1")}}},
+				{K: "batch", DS: "S", Ents: []VEnt{{"e1", pi("v2")}}},
+				{K: "gc"}, {K: "restart"},
+			}
+			pd, pb := 5, 60
+			if !r.Quick() {
+				pd, pb = 7, 1200
+			}
+			engine.RunSeq(r, engine.SeqSpec{Name: "c07-proxy-virtual", WorkerArgs: []string{"worker", "dsm"}, Alphabet: vOpsJSON(pa), Params: params, Depth: pd, Budget: secs(pb)})
+		}
 		// one long history: a deleted dataset with more keys than the garbage collector handles in one batch (10000)
 		{
 			n := 10001
